@@ -90,6 +90,9 @@ RULE = (
     "replacement happened, or an abort followed >= 1 effective write) and some operation used an "
     "absolute owner in the relativized zones; distinct by SHA-1 of the case"
 )
+RULE += (
+    " Round 10 added: get_node() read back after most writes (write-read-write-read on one name inside a transaction)."
+)
 ASSUMPTIONS = [
     "reference model vlib/ref/zone_model.py (documented rules only) and the canonical RDATA form "
     "of vlib/ref/canon.py via vlib/zoneutil.py are the trusted base",
